@@ -15,7 +15,7 @@ from vmon.util import derive_rng, shash
 
 LEVEL = "exploration"
 MANIFEST = {
-    "text": "Seeded random programs biased to partitionwise DAG shapes (chains, diamonds/shared nodes, mixed partition counts, broadcast single-partition and scalar operands, blockwise segments between non-blockwise stages, several consumers) are optimized with and without blockwise fusion on the real code; the two plans must report equal npartitions, divisions and schema and produce identical partitions one by one. A monitor over the fused plan records every Fused group (size, nesting, broadcast and external dependencies); the fused plan is additionally audited with M-plan and M-graph and executed task by task in an adversarial order.",
+    "text": "Seeded random programs biased to partitionwise DAG shapes (chains, diamonds/shared nodes, mixed partition counts, broadcast single-partition and scalar operands, blockwise segments between non-blockwise stages, several consumers) are optimized with and without blockwise fusion on the real code; the two plans must report equal npartitions, divisions and schema and produce identical partitions one by one. A monitor over the fused plan records every Fused group (size, nesting, broadcast and external dependencies); the fused plan is additionally audited with M-plan and M-graph and executed task by task in an adversarial order. A family 'already fused chain + second consumer of an inner member' and single-partition fused groups broadcast into multi-partition groups are included.",
     "note": "Sampled programs. Partition contents compared exactly in order, except inside disk-shuffled plans where rows of one partition are compared as a multiset.",
     "technique": "runtime monitoring: differential execution fused vs unfused, partition by partition, with a Fused-group structure monitor",
     "design_ref": "DESIGN.md section 4, C14",
